@@ -31,6 +31,8 @@ pub struct TaskSpec {
 	pub args: Option<SendArgs>,
 	#[serde(default)]
 	pub del: bool,
+	#[serde(default, skip_serializing_if = "Option::is_none")]
+	pub label: Option<String>,
 }
 
 struct Saved {
@@ -61,6 +63,8 @@ pub struct C20 {
 	/// refresh runs and the block that reaches its cutoff arrives in the same window
 	ttl_race: Option<TtlRace>,
 	ttl_races_left: u32,
+	/// swarm: the user switches the active account while the refresh runs
+	allow_switch: bool,
 }
 
 struct TtlRace {
@@ -135,6 +139,7 @@ fn projection(world: &World, w: usize, slates: &[uuid::Uuid]) -> Vec<String> {
 	for (k, n) in &s.child_idx {
 		v.push(format!("child|{}|{}", k, n));
 	}
+	v.push(format!("active|{}", s.active));
 	v.sort();
 	v
 }
@@ -159,6 +164,7 @@ impl C20 {
 			history_len,
 			scenarios: 0,
 			ttl_race: None,
+			allow_switch: run.rng.chance(1, 3),
 			ttl_races_left: if run.rng.chance(1, 3) { 1 } else { 0 },
 			max_scenarios: if run.thorough { 3 } else { 2 },
 			n_schedules: if run.thorough { 40 } else { 14 },
@@ -232,6 +238,7 @@ impl C20 {
 		};
 		let kind = t.kind.clone();
 		let del = t.del;
+		let label = t.label.clone().unwrap_or_default();
 		Some(Box::new(move || {
 			let done = |r: Result<Option<Slate>, grin_wallet_libwallet::Error>| match r {
 				Ok(s) => TaskOutcome { ok: true, err: None, slate: s, panicked: false },
@@ -247,6 +254,7 @@ impl C20 {
 				"finalize" => done(owner.finalize_tx(m, slate.as_ref().unwrap()).map(Some)),
 				"cancel" => done(owner.cancel_tx(m, None, Some(slate.as_ref().unwrap().id)).map(|_| None)),
 				"post" => done(owner.post_tx(m, slate.as_ref().unwrap(), true).map(|_| None)),
+				"set_account" => done(owner.set_active_account(m, &label).map(|_| None)),
 				_ => TaskOutcome { ok: false, err: Some("unknown task".into()), slate: None, panicked: false },
 			}
 		}))
@@ -481,9 +489,9 @@ impl C20 {
 				let mut schedule = vec![0usize; k];
 				schedule.push(2);
 				let tasks = vec![
-					TaskSpec { kind: "refresh".into(), m: None, args: None, del: false },
-					TaskSpec { kind: "finalize".into(), m: d.m2, args: None, del: false },
-					TaskSpec { kind: "node_mine".into(), m: None, args: None, del: false },
+					TaskSpec { kind: "refresh".into(), m: None, args: None, del: false, label: None },
+					TaskSpec { kind: "finalize".into(), m: d.m2, args: None, del: false, label: None },
+					TaskSpec { kind: "node_mine".into(), m: None, args: None, del: false, label: None },
 				];
 				run.cov.evaluations += 1;
 				run.cov.keys.insert(crate::rng::mix(&[run.seed, 0x771, k as u64]));
@@ -506,8 +514,23 @@ impl C20 {
 			m: None,
 			args: None,
 			del: false,
+			label: None,
 		}];
 		let mut used: BTreeSet<usize> = BTreeSet::new();
+		if self.allow_switch && run.rng.chance(1, 3) {
+			let snap = run.ex.world.snap(w);
+			let others: Vec<String> = snap.accts.iter().map(|a| a.label.clone()).filter(|l| *l != snap.active).collect();
+			if !others.is_empty() {
+				tasks.push(TaskSpec {
+					kind: "set_account".into(),
+					m: None,
+					args: None,
+					del: false,
+					label: Some(run.rng.pick(&others).clone()),
+				});
+				run.cov.probe("active_account_switched_inside_the_window");
+			}
+		}
 		let n_ops = 1 + run.rng.below(3) as usize;
 		let deals: Vec<usize> = (0..run.model.deals.len()).collect();
 		for _ in 0..n_ops * 4 {
@@ -519,7 +542,7 @@ impl C20 {
 				a.src_acct = None;
 				a.proof_to = None;
 				a.late_lock = false;
-				tasks.push(TaskSpec { kind: "init".into(), m: None, args: Some(a), del: false });
+				tasks.push(TaskSpec { kind: "init".into(), m: None, args: Some(a), del: false, label: None });
 				continue;
 			}
 			let d = *run.rng.pick(&deals);
@@ -531,20 +554,20 @@ impl C20 {
 				if deal.cancelled_by.contains(&w) || deal.mined.is_some() {
 					None
 				} else if !deal.locked && !deal.late_lock {
-					Some(TaskSpec { kind: if run.rng.chance(1, 4) { "cancel".into() } else { "lock".into() }, m: Some(deal.m1), args: None, del: false })
+					Some(TaskSpec { kind: if run.rng.chance(1, 4) { "cancel".into() } else { "lock".into() }, m: Some(deal.m1), args: None, del: false, label: None })
 				} else if deal.replied && !deal.finalized {
-					Some(TaskSpec { kind: if run.rng.chance(1, 4) { "cancel".into() } else { "finalize".into() }, m: deal.m2, args: None, del: false })
+					Some(TaskSpec { kind: if run.rng.chance(1, 4) { "cancel".into() } else { "finalize".into() }, m: deal.m2, args: None, del: false, label: None })
 				} else if deal.finalized && !deal.posted {
-					Some(TaskSpec { kind: if run.rng.chance(1, 3) { "cancel".into() } else { "post".into() }, m: deal.m3, args: None, del: false })
+					Some(TaskSpec { kind: if run.rng.chance(1, 3) { "cancel".into() } else { "post".into() }, m: deal.m3, args: None, del: false, label: None })
 				} else if deal.locked {
-					Some(TaskSpec { kind: "cancel".into(), m: Some(deal.m1), args: None, del: false })
+					Some(TaskSpec { kind: "cancel".into(), m: Some(deal.m1), args: None, del: false, label: None })
 				} else {
 					None
 				}
 			} else if deal.initiator != w && deal.kind == crate::model::DealKind::Send && !deal.replied {
-				Some(TaskSpec { kind: "receive".into(), m: Some(deal.m1), args: None, del: false })
+				Some(TaskSpec { kind: "receive".into(), m: Some(deal.m1), args: None, del: false, label: None })
 			} else if deal.payee == Some(w) && deal.mined.is_none() && !deal.cancelled_by.contains(&w) {
-				Some(TaskSpec { kind: "cancel".into(), m: Some(deal.m1), args: None, del: false })
+				Some(TaskSpec { kind: "cancel".into(), m: Some(deal.m1), args: None, del: false, label: None })
 			} else {
 				None
 			};
@@ -766,7 +789,7 @@ impl Prop for C20 {
 					break;
 				}
 				let kind = *run.rng.pick(&["node_mine", "node_mine", "node_down", "node_up"]);
-				tasks.push(TaskSpec { kind: kind.into(), m: None, args: None, del: false });
+				tasks.push(TaskSpec { kind: kind.into(), m: None, args: None, del: false, label: None });
 			}
 			run.cov.evaluations += 1;
 			run.cov.keys.insert(crate::rng::mix(&[run.seed, self.scenarios as u64, 0x72]));
